@@ -1013,3 +1013,9 @@ def stale_variant(task, tier):
     """Tasks that are also run on meshes with a stale attribute blackboard (mc/families.py STALE; the runner appends
     ':stale_attribute_blackboard' to the input class of anything found there)."""
     return bool(task.get("kind") in ("polyline", "surface"))
+
+
+def dupflag_variant(task, tier):
+    """Tasks that are also run with config.display_duplicate_attribute_warning = True (the runner appends
+    ':duplicate_attribute_flag' to the input class of anything found there)."""
+    return bool(task.get("kind") in ("polyline", "surface"))
